@@ -12,7 +12,9 @@ class Job:
 
     def __init__(self, name, fn=None, engine='sx', W=136, params=None, budget_s=900, max_paths=200000,
                  timeout_ms=120000, allow_symmul=False, setup=None, ch_file=None, ch_func=None, ch_timeout=120,
-                 ch_args=None, note=''):
+                 ch_args=None, note='', incremental=True, optimistic=False):
+        self.incremental = incremental
+        self.optimistic = optimistic
         self.name, self.fn, self.engine, self.W = name, fn, engine, W
         self.params = params or {}
         self.budget_s, self.max_paths, self.timeout_ms = budget_s, max_paths, timeout_ms
